@@ -24,9 +24,14 @@ UIDSETS = ["1", "2", "1:*", "3,1", "99", "2:99", "*"]
 
 
 def cfg(n, deleted, gap=False):
-    from .common import cfg_basic
+    from .common import cfg_basic, cfg_diverged
 
     flags = {i: "\\Deleted" for i in deleted}
+    if gap:
+        # non-initial state: n-2 old messages, the former top one expunged, two later arrivals (MH key != UID)
+        c = cfg_diverged(PROP, n - 2, 2, flags=flags, other_msgs=1, name=f"c05-div-{n}-{'-'.join(map(str, deleted))}")
+        c["snapshot_refused"] = True
+        return c
     c = cfg_basic(PROP, n, others=("other",), flags=flags, other_msgs=1, name=f"c05-{n}-{'-'.join(map(str, deleted))}")
     c["snapshot_refused"] = True
     return c
@@ -57,12 +62,29 @@ def cases(tier):
                                  {"s": "A", "op": "fetch", "set": "1:*", "items": "RFC822", "uid": True}]
                     for c in cmds:
                         yield (n, list(deleted), [sel, c])
+    # the same commands from a state where MH keys and UIDs differ (positions 1..n hold UIDs 1..n-2, n, n+1)
+    for n in ([3] if tier == "quick" else [3, 4]):
+        top = n + 1
+        usets = [str(n), str(top), f"{n}:{top}", f"{n - 1}:{n}", f"{n - 2},{top}", "1:*", str(n - 1), f"{top}:*"]
+        for k in range(n + 1):
+            for deleted in itertools.combinations(range(1, n + 1), k):
+                sel = {"s": "A", "op": "select", "m": "INBOX"}
+                cmds = [{"s": "A", "op": "expunge"}, {"s": "A", "op": "close"}]
+                for st in usets:
+                    cmds.append({"s": "A", "op": "expunge", "uidset": st})
+                    cmds.append({"s": "A", "op": "move", "set": st, "dst": "other", "uid": True})
+                    cmds.append({"s": "A", "op": "copy", "set": st, "dst": "other", "uid": True})
+                for st in SETS:
+                    cmds.append({"s": "A", "op": "move", "set": st, "dst": "other"})
+                    cmds.append({"s": "A", "op": "copy", "set": st, "dst": "INBOX"})
+                for c in cmds:
+                    yield (n, list(deleted), [sel, c], True)
 
 
 def work(unit):
     fails, outcomes, n_eval = [], set(), 0
-    for n, deleted, hist in unit:
-        st = HState(cfg(n, deleted))
+    for n, deleted, hist, *gap in unit:
+        st = HState(cfg(n, deleted, bool(gap)))
         try:
             for ev in hist:
                 st.apply(ev)
@@ -73,7 +95,7 @@ def work(unit):
             outcomes.add((hist[1]["op"], tagged[-3] if len(tagged) >= 3 else None))
             for f in st.failures:
                 if any(f.rule.startswith(p) for p in RULES):
-                    f.replay = {"driver": "c05", "n": n, "deleted": deleted, "history": hist}
+                    f.replay = {"driver": "c05", "n": n, "deleted": deleted, "history": hist, "gap": bool(gap)}
                     f.details = dict(f.details, op=hist[1]["op"], ro=hist[0]["op"] == "examine")
                     fails.append(f)
         finally:
@@ -104,19 +126,36 @@ def hcfg():
     return cfg(3, [2])
 
 
+def hcfg_div():
+    return cfg(4, [3], True)
+
+
+def alphabet_div(tier):
+    ev = [{"s": "A", "op": "select", "m": "INBOX"}, {"s": "B", "op": "select", "m": "INBOX"}]
+    for s in ("A", "B"):
+        ev += [
+            {"s": s, "op": "expunge"},
+            {"s": s, "op": "store", "set": "2", "mode": "+", "flags": "\\Deleted"},
+            {"s": s, "op": "store", "set": "5", "mode": "+", "flags": "\\Deleted", "uid": True},
+            {"s": s, "op": "expunge", "uidset": "4"},
+            {"s": s, "op": "expunge", "uidset": "5"},
+            {"s": s, "op": "move", "set": "4", "dst": "other", "uid": True},
+        ]
+    ev += [{"s": "A", "op": "deliver", "m": "INBOX"}, {"s": "A", "op": "noop"}]
+    return ev
+
+
 def run(tier, seed, jobs) -> Result:
     from .hcommon import run_h
 
     allc = list(cases(tier))
-    for n, deleted, _ in allc:
-        pass
     # build templates in the parent
     seen = set()
-    for n, deleted, _ in allc:
-        key = (n, tuple(deleted))
+    for n, deleted, _, *gap in allc:
+        key = (n, tuple(deleted), bool(gap))
         if key not in seen:
             seen.add(key)
-            cfg(n, deleted)
+            cfg(n, deleted, bool(gap))
     units = [allc[i : i + 25] for i in range(0, len(allc), 25)]
     units = seeded_order(units, seed)
     fails, evals = [], 0
@@ -126,7 +165,9 @@ def run(tier, seed, jobs) -> Result:
         evals += e
         outcomes |= oc
     hres = run_h(PROP, RULES, [{"cfg_ref": ("vf.props.c05", "hcfg", []), "alphabet": alphabet(tier),
-                                "depth": 3 if tier == "quick" else 4, "label": "two sessions, INBOX(3) one \\Deleted"}],
+                                "depth": 3 if tier == "quick" else 4, "label": "two sessions, INBOX(3) one \\Deleted"},
+                               {"cfg_ref": ("vf.props.c05", "hcfg_div", []), "alphabet": alphabet_div(tier),
+                                "depth": 3 if tier == "quick" else 5, "label": "two sessions, INBOX(4) with MH keys != UIDs, one \\Deleted"}],
                  ("C05",), jobs, seed, [], time_budget=60 if tier == "quick" else 1200)
     res = Result(level="exploration")
     res.failures = fails + hres.failures
@@ -140,8 +181,10 @@ def run(tier, seed, jobs) -> Result:
         "distinct_outcomes": len(outcomes),
         "h_part": {k: hres.coverage[k] for k in ("states", "transitions", "bound", "caps_hit")},
         "samples": [allc[0][2], allc[len(allc) // 2][2], allc[-1][2]],
+        "diverged_key_uid_cases": sum(1 for c in allc if len(c) > 3),
     }
-    res.assumptions = ["N<=3 (quick) / N<=4 (thorough); every \\Deleted subset; message sets from a fixed list of 7 shapes "
+    res.assumptions = ["second family of start states: INBOX whose former top message was expunged before two more arrived (MH key != UID), N=3 (quick) / 3,4 (thorough)",
+                       "N<=3 (quick) / N<=4 (thorough); every \\Deleted subset; message sets from a fixed list of 7 shapes "
                        "(incl. duplicates and partly non-existent UIDs); destination `other` holds one message",
                        "'changes nothing' is judged on the maildir tree (names, sizes, hashes) and all database rows minus timestamp columns"]
     return res
@@ -150,7 +193,7 @@ def run(tier, seed, jobs) -> Result:
 def replay(rec):
     rp = rec["replay"]
     if rp.get("driver") == "c05":
-        f, _, _ = work([(rp["n"], rp["deleted"], rp["history"])])
+        f, _, _ = work([(rp["n"], rp["deleted"], rp["history"]) + ((True,) if rp.get("gap") else ())])
         return f
     from .hcommon import replay_h
 
